@@ -480,4 +480,93 @@ theorem parseDoc_serialize (n : Str) (attrs : List (Str × Str)) (cs : List XNod
   rw [List.append_nil] at this
   rw [this]
 
+/-! ### The `<hello>` and `<rpc>` envelopes -/
+
+/-- The two prefixes the device profiles use for the base namespace. -/
+def StdPfx (pfx : Str) : Prop := pfx = "nc:".toList ∨ pfx = []
+
+theorem wfList_elems : ∀ (l : List XNode), (∀ x ∈ l, wf x = true ∧ isText x = false) → wfList l = true
+  | [], _ => by simp [wfList]
+  | [x], h => by simpa [wfList] using (h x List.mem_cons_self).1
+  | x :: y :: rest, h => by
+    have hx := h x List.mem_cons_self
+    have ih := wfList_elems (y :: rest) (fun z hz => h z (List.mem_cons_of_mem _ hz))
+    unfold wfList
+    simp only [Bool.and_eq_true]
+    refine ⟨⟨hx.1, ?_⟩, ih⟩
+    cases x with
+    | text _ => simp [isText] at hx
+    | elem _ _ _ => rfl
+
+theorem wf_helloTree (pfx : Str) (caps : List Str) (hp : StdPfx pfx) (hc : ∀ c ∈ caps, c ≠ []) :
+    wf (helloTree pfx caps) = true := by
+  have hcaps : wfList (caps.map fun c => XNode.elem (pfx ++ "capability".toList) [] [.text c]) = true := by
+    apply wfList_elems
+    intro x hx
+    rw [List.mem_map] at hx
+    obtain ⟨c, hcm, rfl⟩ := hx
+    have hne : c.isEmpty = false := by
+      cases c with
+      | nil => exact absurd rfl (hc [] hcm)
+      | cons _ _ => rfl
+    rcases hp with hp | hp <;> subst hp <;> simp [wf, wfList, isText, hne] <;> decide
+  rcases hp with hp | hp <;> subst hp
+  · unfold helloTree wf
+    simp only [Bool.and_eq_true]
+    refine ⟨⟨⟨by decide, by decide⟩, by decide⟩, ?_⟩
+    unfold wfList wf
+    simp only [Bool.and_eq_true]
+    exact ⟨⟨⟨by decide, by decide⟩, by decide⟩, hcaps⟩
+  · unfold helloTree wf
+    simp only [Bool.and_eq_true]
+    refine ⟨⟨⟨by decide, by decide⟩, by decide⟩, ?_⟩
+    unfold wfList wf
+    simp only [Bool.and_eq_true]
+    exact ⟨⟨⟨by decide, by decide⟩, by decide⟩, hcaps⟩
+
+theorem capsOf_helloTree (pfx : Str) (caps : List Str) : capsOf pfx (helloTree pfx caps) = caps.map some := by
+  unfold helloTree capsOf
+  simp only [List.flatMap_cons, List.flatMap_nil, List.append_nil, if_true]
+  induction caps with
+  | nil => rfl
+  | cons c cs ih =>
+    simp only [List.map_cons, List.filterMap_cons, if_true]
+    rw [ih]
+    rfl
+
+/-- What a peer reads out of the `<hello>` ncclient builds: exactly the capability list, in order, each
+    string unaltered (query strings with `&`, `<` … included). -/
+theorem hello_roundtrip (pfx : Str) (caps : List Str) (hp : StdPfx pfx) (hc : ∀ c ∈ caps, c ≠ []) :
+    (parseDoc (serialize (helloTree pfx caps))).map (capsOf pfx) = some (caps.map some) := by
+  have hw := wf_helloTree pfx caps hp hc
+  unfold helloTree at hw ⊢
+  rw [parseDoc_serialize _ _ _ hw]
+  exact congrArg some (capsOf_helloTree pfx caps)
+
+theorem wf_rpcTree (pfx mid : Str) (n : Str) (attrs : List (Str × Str)) (cs : List XNode) (hp : StdPfx pfx)
+    (hop : wf (.elem n attrs cs) = true) : wf (rpcTree pfx mid (.elem n attrs cs)) = true := by
+  rcases hp with hp | hp <;> subst hp
+  · unfold rpcTree wf
+    simp only [Bool.and_eq_true, List.all_cons, List.all_nil, Bool.and_true, List.map_cons, List.map_nil]
+    refine ⟨⟨⟨by decide, ⟨by decide, by decide⟩⟩, by decide⟩, ?_⟩
+    unfold wfList
+    exact hop
+  · unfold rpcTree wf
+    simp only [Bool.and_eq_true, List.all_cons, List.all_nil, Bool.and_true, List.map_cons, List.map_nil]
+    refine ⟨⟨⟨by decide, ⟨by decide, by decide⟩⟩, by decide⟩, ?_⟩
+    unfold wfList
+    exact hop
+
+/-- The `<rpc>` envelope: a peer reads back the operation element as it was built and the message-id as
+    it was generated, whatever characters either contains. -/
+theorem rpc_roundtrip (pfx mid : Str) (n : Str) (attrs : List (Str × Str)) (cs : List XNode) (hp : StdPfx pfx)
+    (hop : wf (.elem n attrs cs) = true) :
+    parseDoc (serialize (rpcTree pfx mid (.elem n attrs cs))) = some (rpcTree pfx mid (.elem n attrs cs)) ∧
+    attrOf "message-id".toList (rpcTree pfx mid (.elem n attrs cs)) = some mid := by
+  have hw := wf_rpcTree pfx mid n attrs cs hp hop
+  constructor
+  · unfold rpcTree at hw ⊢
+    exact parseDoc_serialize _ _ _ hw
+  · rcases hp with hp | hp <;> subst hp <;> simp [rpcTree, attrOf, nsDecl] <;> decide
+
 end NcVerif.XmlDocP
